@@ -33,7 +33,7 @@ def run(ctx: RuleContext, p: Program) -> None:
     from . import storeforms
     from . import tsseq, possem
     ctx.try_rule(possem.rule_nav_sem, ts, 'NAV-SEM')
-    ctx.try_rule(possem.rule_nav_layout, ts, 'NAV-LAYOUT')
+    ctx.try_rule(possem.rule_nav_layout, ts, 'NAV-LAYOUT', 4 if ctx.tier == 'quick' else 6)
     ctx.try_rule(possem.rule_build_sem, ts, 'BUILD-SEM')
     ctx.try_rule(possem.rule_from_tokens_sem, ts, 'FROM-SEM')
     ctx.try_rule(tsseq.rule_ts_seq, ts, "TS-SEQ", 4 if ctx.tier == "quick" else 7)
